@@ -21,6 +21,7 @@
 
 #include <mujoco/mujoco.h>
 
+void nd_tolerated_fwd(const char* cls, const char* msg);
 namespace nd {
 
 struct Rng {
@@ -42,6 +43,7 @@ struct Args {
   std::map<std::string, std::string> opt;
 };
 inline Args g_args;
+inline std::set<std::string> g_tolerate;
 inline const char* g_property = "?";
 inline uint64_t g_seed = 0;
 inline std::string g_scenario;      // one-line description of the case in progress
@@ -66,6 +68,7 @@ inline void parse_args(int argc, char** argv) {
     else if (a == "--mdrop") parse_set(nx(), g_args.mdrop);
     else if (a == "-v") g_args.verbose = true;
     else if (a == "--cfg" || a == "--dec") nx();   // E1-only options, ignored
+    else if (a == "--tolerate") { std::string t = nx(); size_t i = 0; while (i < t.size()) { size_t j = t.find(',', i); if (j == std::string::npos) j = t.size(); if (j > i) g_tolerate.insert(t.substr(i, j - i)); i = j + 1; } }
     else if (a.rfind("--", 0) == 0 && i + 1 < argc) g_args.opt[a.substr(2)] = argv[++i];
   }
 }
@@ -73,6 +76,7 @@ inline long opt_long(const char* k, long d) { auto it = g_args.opt.find(k); retu
 inline std::string opt_str(const char* k, const char* d) { auto it = g_args.opt.find(k); return it == g_args.opt.end() ? d : it->second; }
 
 inline void count(const char* k, uint64_t n = 1) { g_count[k] += n; }
+inline uint64_t g_tolerated_printed = 0;
 inline void signature(uint64_t h) { g_sigs.insert(h); }
 inline uint64_t fnv(const void* p, size_t n, uint64_t h = 0xcbf29ce484222325ULL) {
   const unsigned char* c = (const unsigned char*)p;
@@ -104,13 +108,30 @@ inline void write_fail_file(const char* cls, const char* msg) {
   fflush(stdout);
   if (write(1, buf, n) < 0) {}
 }
+// classes listed with --tolerate (the property's known findings) do not end the shard: the case is abandoned,
+// counted, and the run goes on, so a recorded finding does not cost coverage
+inline jmp_buf g_case_jmp;
+inline bool g_case_jmp_set = false;
+#define ND_CASE_GUARD() do { nd::g_case_jmp_set = true; if (setjmp(nd::g_case_jmp)) { nd::g_in_case = false; goto nd_case_abandoned; } } while (0); if (0) { nd_case_abandoned: nd::count("cases"); continue; }
 [[noreturn]] inline void violation(const char* cls, const char* fmt, ...) {
   static char b[1500];
   va_list ap; va_start(ap, fmt); vsnprintf(b, sizeof b, fmt, ap); va_end(ap);
   for (char* c = b; *c; c++) if (*c == '\n') *c = ' ';
+  bool tolerated = g_tolerate.count(cls) > 0;
+  for (auto& t : g_tolerate) if (!t.empty() && t.back() == '*' && !strncmp(cls, t.c_str(), t.size() - 1)) tolerated = true;
+  if (g_case_jmp_set && tolerated) {
+    ::nd_tolerated_fwd(cls, b);
+    longjmp(g_case_jmp, 1);
+  }
   write_fail_file(cls, b);
   _exit(10);
 }
+}  // namespace nd
+inline void nd_tolerated_fwd(const char* cls, const char* msg) {
+  nd::g_count[std::string("tolerated_") + cls]++;
+  if (nd::g_tolerated_printed++ < 3) { printf("TOLERATED seed=%" PRIu64 " class=%s msg=%s\n", nd::g_seed, cls, msg); fflush(stdout); }
+}
+namespace nd {
 inline void on_signal(int sig, siginfo_t*, void*) {
   char b[64]; snprintf(b, sizeof b, "signal %d", sig);
   if (g_in_case) { write_fail_file("crash", b); _exit(10); }
